@@ -914,6 +914,13 @@ class AdjointHarness(MultiplyOpHarness):
                 eng.assume(z3.And(p[j] >= -1, p[j] <= 1, n[j] >= 0, n[j] <= 1))
         coef = Coef(lambda occ: F(*occ), "f")
         self.n = n
+        binary_modes = [j for j in range(k) if layout[j] in ("spin", "fermion")]
+        if len(binary_modes) >= 2:
+            # decide the amplitude identity per occupation / power pattern of the binary modes (small queries, load-independent verdicts)
+            for j in binary_modes:
+                eng.branch(n[j] == 0)
+                if not eng.branch(p[j] == 0):
+                    eng.branch(p[j] == 1)
         seen = []
 
         class Terms(Model):
